@@ -171,6 +171,19 @@ def check(ctx):
     fat["ids"] = ["f000", "f001", "f128", "f259"]
     fat["pad"] = 48 * 1024
     validate(ctx, fat, "fatbatch")
+    # imports of a JSON signature file: sizes at and around the import batch (1000), the machine dying during
+    # the import, right after it returned, and during shutdown.  What the import reported as done must be there.
+    def msig(i):
+        return {"id": "g%04d" % i, "topo": ["tA", "tB", "tC"][i % 3], "fuzzy": ["", "fX"][i % 2], "ent": sl.E["2.5"] + (i % 5), "tol": 0, "ver": 0}
+    sizes = [999, 1000, 1001, 2000, 3000] if thorough else [1000, rng.choice([999, 1001, 2000])]
+    mh = [[{"op": {"op": "migrate", "sigs": [msig(i) for i in range(n)]}}] for n in sizes]
+    if thorough:
+        mh.append([{"op": {"op": "add", "sig": msig(5)}}, {"op": {"op": "migrate", "sigs": [msig(i) for i in range(1000)]}},
+                   {"op": {"op": "migrate", "sigs": [msig(i) for i in range(990, 1990)]}}])
+    mig = plan_base(mh, 10 if thorough else 3, ctx.seed)
+    mig["ids"] = ["g0000", "g0999", "g1000", "g1999"]
+    validate(ctx, mig, "migrate")
+    ctx.notes["migrate_sizes"] = sizes
     evs = vlib.read_ndjson(trace)
     inflights = [e for e in evs if e.get("inflight")]
     kinds = {}
